@@ -95,9 +95,10 @@ def roland_dirs_case(names: List[str], level: str) -> Dict[str, Any]:
 
 
 def cue_lines(names: List[str]) -> Tuple[List[dict], int]:
-    """abstract cue lines (Cue.tla records) for one AUDIO track per name; track k starts at frame 2*k"""
+    """abstract cue lines (Cue.tla records) for one AUDIO track per name; track k (0-based) is k+1 frames long"""
     L = lambda c, a=0, b="", m=0, s=0, f=0: {"c": c, "a": a, "b": b, "m": m, "s": s, "f": f}
     lines = [L("FILE", 0, "image.bin")]
     for k, n in enumerate(names):
-        lines += [L("TRACK", k + 1, "AUDIO"), L("TITLE", 0, n), L("INDEX", 1, "", 0, 0, 2 * k)]
-    return lines, 2352 * (2 * len(names) + 1) + 8 * len(names)
+        lines += [L("TRACK", k + 1, "AUDIO"), L("TITLE", 0, n), L("INDEX", 1, "", 0, 0, k * (k + 1) // 2)]
+    n = len(names)
+    return lines, 2352 * (n * (n + 1) // 2)
